@@ -124,6 +124,12 @@ class UserMetadata(Identity, Versioned[int | None]):
         if password is not None:
             hash_context = self.config.hash_context.copy()
             try:
+                if isinstance(hash_context, Cleartext):
+                    # compared as text, secrets with non-ASCII characters
+                    # raise TypeError instead of giving an answer
+                    return secrets.compare_digest(
+                        prepare(value).encode('utf-8'),
+                        prepare(password).encode('utf-8'))
                 return hash_context.verify(prepare(value), prepare(password))
             except ValueError:
                 return False  # e.g. characters prohibited by the profile
